@@ -16,6 +16,7 @@ import urllib.request
 from pathlib import Path
 
 import core
+import suitetrace
 from props import c19
 
 HDR = "# SPDX-FileCopyrightText: 2020 Jane Doe\n# SPDX-License-Identifier: MIT\n"
@@ -162,6 +163,8 @@ def run(ctx: core.Ctx) -> int:
         "the set of covered files used for the footprint of `annotate -r` is the tool's own lint listing of the state before "
         "the command (its correctness is C03's subject)",
         "download runs against a stub network that always succeeds",
+        "for invocations recorded from the repository's tests the covered files are over-approximated by all regular files "
+        "(a larger footprint for annotate -r: sound, less sharp); tests that mock the file-writing functions show no effect",
     ]
     mc = ctx.mc("Reuse", "MC_C15.cfg")
     mc_viol = [{"clause": f"model:{v}", "kf": "", "detail": mc["out"][-2000:]} for v in mc["violated"]]
@@ -182,6 +185,9 @@ def run(ctx: core.Ctx) -> int:
     for ev in [e for e in events if e["cmd"]["kind"].startswith("annotate")][:3] + events[:1]:
         ctx.samples.append({"cmd": ev["cmd"], "changed": ev["changed"], "created": ev["created"], "removed": ev["removed"],
                             "sentinel": ev["sentinel"], "exit": ev["exit"]})
+    # executions the repository's own CLI tests drive, recorded and judged by the same specification
+    suite = suitetrace.for_c15(suitetrace.collect(ctx), 100000)
+    events += suite
     ctx.validate("Trace_C15", "Trace_C15.cfg", events, group_key="tid")
     for r in ctx.rejects:
         d = r.get("detail")
@@ -193,7 +199,8 @@ def run(ctx: core.Ctx) -> int:
         rule="command sequences over {lint x4 formats, lint-file, spdx, spdx -o, supported-licenses, --help, --version, annotate "
              "on files / a binary / a symlink leaving the project, annotate -r on the root / directories / a symlinked "
              "directory, convert-dep5, download}: all of length 1, length 2 (quick: seeded sample), thorough: sampled length 3; "
-             "on a Git work tree with outside sentinel, ignored file, LICENSES/, .reuse/dep5, read-only file",
+             "on a Git work tree with outside sentinel, ignored file, LICENSES/, .reuse/dep5, read-only file; plus every CLI "
+             "invocation made by the repository's own tests/test_cli_*.py (recorded by a pytest plugin, snapshots around it)",
         mc_violations=mc_viol)
 
 
